@@ -391,6 +391,9 @@ def run_http(chk, built, tref, treedefs):
                 if venabled:
                     cl.req("PUT", "/" + bucket, query={"versioning": ""}, body=b"<VersioningConfiguration><Status>Enabled</Status></VersioningConfiguration>")
                 keys = rnd.sample(["docs/2024/q1/report.txt", "docs/2024/q2.txt", "docs/readme", "a/b/c/d/e", "a/b/x", "top", "dir/", "dir/sub/", "z/y/"], rnd.randrange(3, 8))
+                if hidx == 0:
+                    # (fixed) explicit directory objects that become empty again: they are keys and stay listed
+                    keys = ["photos/", "photos/a.jpg", "x/y/", "x/y/z/file", "top"]
                 if hidx % 2 == 0:
                     # a key in the gateway's bookkeeping namespace: refused, or listed like any other acknowledged key
                     keys.insert(rnd.randrange(len(keys) + 1), rnd.choice([".sgwtmp/x", ".sgwtmp/multipart/y", ".sgwtmp/"]))
@@ -409,6 +412,7 @@ def run_http(chk, built, tref, treedefs):
                     hist.append("refused put (%s) %s -> %d" % (how, k, r.status))
                     if r.status == 200: vids.setdefault(k, []).append(r.headers.get("x-amz-version-id"))
                 gone = rnd.sample(sorted(vids), rnd.randrange(1, len(vids) + 1))
+                if hidx == 0: gone = [k for k in ("photos/a.jpg", "x/y/z/file") if k in vids]
                 for k in gone:
                     how = rnd.choice(["by-version", "marker-then-versions", "versions-then-plain"]) if venabled else "plain"
                     if how == "plain":
